@@ -76,6 +76,8 @@ def frame_jobs(rep, tier):
     map0 = z3.Array("map77_init", z3.BitVecSort(64), z3.BitVecSort(8))
     nprog = 0
     for stmt in S.statements():
+        if stmt in S.C09_ONLY:
+            continue
         try:
             info = S.build(stmt)
         except Exception as e:
@@ -167,6 +169,10 @@ def frame_jobs(rep, tier):
                     @staticmethod
                     def zext(v, bits):
                         return z3.ZeroExt(bits - v.size(), v)
+
+                    @staticmethod
+                    def sext(v, bits):
+                        return z3.SignExt(bits - v.size(), v)
                 rname = hash_region_name(hf, bytes([info["hashvars"][dest][1]]))
                 reg = path.regions.get(rname)
                 exp = expected(St)
